@@ -32,6 +32,8 @@ func resultNames(fn *ssa.Function) []string {
 // initState builds the symbolic entry state of the function under proof.
 func (x *Exec) initState(suffix string) *State {
 	s := &State{heap: map[string]string{}, held: map[string]heldLock{}, lockedOnce: map[string]bool{}}
+	s.finCount = new(int)
+	s.declare = x.D.declare
 	f := x.newFrame(x.fn)
 	s.frames = []*Frame{f}
 	x.D.declare("Alloc0", "(Array Int Bool)")
@@ -777,6 +779,22 @@ func (x *Exec) framePropsOrAll() []string { return nil }
 type assignTarget struct{ arr, base, sort string }
 
 func (x *Exec) assignTargets(s *State, env *Env, a string) []assignTarget {
+	if strings.HasPrefix(a, "all ") {
+		// "all T.g": every cell of the ghost/field array
+		key := strings.TrimSpace(a[4:])
+		if g, ok := x.P.specs.Ghosts[key]; ok {
+			gt, err := x.P.lookupType(g.Type)
+			if err != nil {
+				specFail("assigns %s: %v", a, err)
+			}
+			var out []assignTarget
+			for _, lf := range leavesOf(gt) {
+				out = append(out, assignTarget{x.arrName("ghost:" + key + lf.Suffix), "*", "(Array Int " + lf.Sort + ")"})
+			}
+			return out
+		}
+		specFail("assigns: unknown ghost %s", key)
+	}
 	ex := mustParse(a)
 	var out []assignTarget
 	switch ex.Op {
